@@ -7,6 +7,7 @@ Every random choice derives from the `random.Random` handed in, so a case replay
   overlap   paths revisiting stops / overlapping each other (optimizeJourney cases)
   tmpl      directed rewrite templates (go-too-far corridor, return line, continuation, walk)
   zero      zero-duration hops (outside the optimality domains; termination / validity only)
+  ties      consecutive stops of a trip served in the same second: only the sequence number orders two connections (sort comparators)
   hours     vehicles and requests on, just before and just after hour marks, 0:00 .. 32:00
   xfer      some lines of the special `transferable` mode
 All streams produce *well-formed* datasets (times non-decreasing along a trip, self footpath
@@ -94,6 +95,22 @@ def gen_network(rng, profile):
                 # any order (the code must not rely on the lists being sorted)
                 s[key] = rng.sample(range(dom), rng.randint(1, max(1, dom - 1)))
         scen.append(s)
+    # twins: a scenario that differs from an existing one in exactly ONE of its seven lists (anything that identifies a
+    # scenario by part of its definition - a cache key, a comparison - confuses the two)
+    if rng.random() < 0.5:
+        for _ in range(rng.randint(1, 2)):
+            base = dict(rng.choice(scen)); base = {k: list(v) for k, v in base.items()}
+            key, dom = rng.choice((("onlyModes", 3), ("exceptModes", 3), ("onlyModes", 3), ("exceptModes", 3), ("onlyAgencies", nag), ("exceptAgencies", nag),
+                                   ("onlyLines", nl), ("exceptLines", nl), ("services", nsv)))
+            if key == "services":
+                new = rng.sample(range(nsv), rng.randint(1, nsv))
+            elif key.endswith("Modes"):
+                present = sorted(set(m for _, m in lines))
+                new = [rng.choice(present)] if rng.random() < 0.7 else rng.sample(range(dom), rng.randint(1, 2))
+            else:
+                new = rng.sample(range(dom), rng.randint(1, max(1, dom - 1)))
+            if sorted(new) != sorted(base[key]):
+                base[key] = new; scen.append(base)
     return dict(ns=ns, nag=nag, nsv=nsv, foot=foot, lines=lines, paths=paths, trips=trips, scenarios=scen,
                 acc=[(s, t, x) for s, (t, x) in acc.items()], egr=[(s, t, x) for s, (t, x) in egr.items()],
                 cacheall=rng.choice([0, 1]), profile=profile, base_hour=base_hour)
@@ -224,7 +241,52 @@ def gen_closer(rng):
                 cacheall=0, profile="closer", base_hour=0, mw_hint=mwc, t_hint=(t0, depB2 + 1000))
 
 
+def gen_ties(rng):
+    """time ties inside one trip: consecutive stops served in the same second (zero-duration hop with no dwell), so that two
+    connections of a trip tie in arrival and/or departure time and only the sequence number orders them; several runs an
+    hour apart so that a lost boarding shows as a different run; access before the tie, egress after it"""
+    ns = rng.randint(4, 6)
+    foot = [(s, s, 0, 0) for s in range(ns)]
+    if rng.random() < 0.4:
+        a, b = rng.sample(range(ns), 2)
+        foot.append((a, b, rng.choice([30, 60, 120]), rng.randint(0, 200)))
+    lines = [(0, 0)]; paths = []; trips = []
+    ids = list(range(1, 60)); rng.shuffle(ids)
+    k = rng.randint(3, min(5, ns))
+    stops = rng.sample(range(ns), k)
+    paths.append((0, stops, [rng.randint(1, 50) for _ in stops[:-1]]))
+    tie_at = rng.randrange(1, k - 1) if k > 2 else 1        # the stop served in the same second as the next one
+    t0 = rng.choice([3000, 3600, 28800])
+    for r in range(rng.randint(2, 3)):
+        t = t0 + r * 3600; arr, dep = [], []
+        for i, _ in enumerate(stops):
+            arr.append(t)
+            if i == tie_at or rng.random() < 0.3:
+                dep.append(t)                                  # no dwell, and the next hop takes no time
+                if i != tie_at: t += rng.choice([60, 300])
+            else:
+                t += rng.choice([0, 30]); dep.append(t); t += rng.choice([60, 300, 600])
+        trips.append((0, 0, ids.pop(), arr, dep, [1] * k, [1] * k))
+    if rng.random() < 0.5:
+        l2 = rng.sample(range(ns), 2)
+        lines.append((0, 0)); paths.append((1, l2, [10]))
+        tt = t0 + rng.choice([0, 600, 1800])
+        trips.append((1, 0, ids.pop(), [tt, tt + 300], [tt, tt + 300], [1, 1], [1, 1]))
+    if rng.random() < 0.5:
+        rng.shuffle(trips)
+    acc = {stops[rng.randrange(0, tie_at + 1)]: (rng.choice([0, 60, 240]), rng.randint(0, 300))}
+    egr = {stops[rng.randrange(tie_at + 1, k)]: (rng.choice([0, 60, 240]), rng.randint(0, 300))}
+    if rng.random() < 0.4: acc[stops[0]] = (rng.choice([0, 100]), 50)
+    if rng.random() < 0.4: egr[stops[-1]] = (rng.choice([0, 100]), 50)
+    scen = [dict(services=[0], onlyLines=[], exceptLines=[], onlyAgencies=[], exceptAgencies=[], onlyModes=[], exceptModes=[])]
+    return dict(ns=ns, nag=1, nsv=1, foot=foot, lines=lines, paths=paths, trips=trips, scenarios=scen,
+                acc=[(s, t, x) for s, (t, x) in acc.items()], egr=[(s, t, x) for s, (t, x) in egr.items()],
+                cacheall=rng.choice([0, 1]), profile="ties", t_hint=(t0, t0 + 3 * 3600))
+
+
 def gen_dataset(rng, stream):
+    if stream == "ties":
+        return gen_ties(rng)
     if stream == "tmpl":
         return gen_tmpl(rng)
     if stream == "parallel":
@@ -252,6 +314,9 @@ def gen_query(rng, d, forward=None, cap=None, alt=False, limits=True):
     elif prof == "closer":
         lo, hi = d["t_hint"]
         t = rng.choice([lo - 600, lo - 60, hi, hi + 3000])
+    elif prof == "ties":
+        lo, hi = d["t_hint"]
+        t = rng.choice([lo - 600, lo - 60, lo + 1800, lo + 3000, lo + 5400, hi, hi + 600])
     else:
         t = rng.choice([0, 1800, 2900, 3600, 4000, 5000, 7200, 9000]) + rng.choice([0, 0, 1, 59, 600])
     tt = rng.choice([0, 1]) if forward is None else (0 if forward else 1)
